@@ -240,7 +240,7 @@ def check_huge(IndxIO, tmp, st, which):
         if os.path.getsize(path) != T:
             MON.check("indxio.IndxIO.save/size-field-equals-payload-for-large-totals", "file length %d, expected %d" % (os.path.getsize(path), T), None, ex)
             continue
-        if which in (None, "C10", "C11"):
+        if which in (None, "C10"):
             ob = "indxio.roundtrip/huge-file-entries-found-at-their-place"
             try:
                 with open(path, "rb") as f:
@@ -326,7 +326,7 @@ def work(args):
             j += 1
         if shard == 0 and which in (None, "C11"):
             check_large_totals(IndxIO, tmp, st)
-        if shard == 1 % nshards:
+        if shard == 1 % nshards and which in (None, "C10", "C12"):
             check_huge(IndxIO, tmp, st, which)
         if which in (None, "C10"):
             check_indexes(IndxIO, iindex, tier, shard, nshards, tmp, st)
